@@ -14,7 +14,7 @@ import (
 )
 
 // VerifC19Backend: a mix of concurrent requests (write, point read, range read, watch, two
-// compactions) on one node over the real in-memory engine, background loops running.
+// compactions, three writers) on one node over the real in-memory engine, background loops running.
 func VerifC19Backend() {
 	be := backend.NewBackend(memkv.NewKvStorage(), backend.Config{Prefix: "/r", EnableEtcdCompatibility: true, WatchCacheSize: 2}, zzmodel.NoMetrics{})
 	be.SetCurrentRevision(5)
@@ -22,7 +22,7 @@ func VerifC19Backend() {
 	_, err := be.Create(ctx, &proto.CreateRequest{Key: key, Value: []byte("v")})
 	zzverif.Assert(err == nil, "setup create")
 	zzverif.WaitIdle()
-	mix := zzverif.Choose("mix", 3)
+	mix := zzverif.Choose("mix", 4)
 	var wg sync.WaitGroup
 	n := 3
 	wg.Add(n)
@@ -39,8 +39,10 @@ func VerifC19Backend() {
 			be.Get(ctx, &proto.GetRequest{Key: key})
 		case 1:
 			be.List(ctx, &proto.RangeRequest{Key: []byte("/r/"), End: []byte("/r0")})
-		default:
+		case 2:
 			be.Compact(ctx, 6)
+		default: // three writers at once: update ∥ create of another key ∥ delete
+			be.Create(ctx, &proto.CreateRequest{Key: []byte("/r/b"), Value: []byte("x")})
 		}
 		wg.Done()
 	})
@@ -50,8 +52,10 @@ func VerifC19Backend() {
 			be.Watch(ctx, "/r/", 6)
 		case 1:
 			be.Count(ctx, &proto.CountRequest{Key: []byte("/r/"), End: []byte("/r0")})
-		default:
+		case 2:
 			be.Compact(ctx, 0)
+		default:
+			be.Delete(ctx, &proto.DeleteRequest{Key: key, Revision: 6})
 		}
 		wg.Done()
 	})
